@@ -219,9 +219,10 @@ def olefile_read(data: bytes):
     with olefile.OleFileIO(io.BytesIO(data), raise_defects=olefile.DEFECT_UNSURE) as ole:
         for p in ole.listdir(streams=True, storages=False):
             out["/".join(p)] = ole.openstream(p).read()
-        for p in ole.listdir(streams=False, storages=True):
-            if not any(k.startswith("/".join(p) + "/") for k in out):
-                out["/".join(p) + "/"] = b""
+        storages = ["/".join(p) + "/" for p in ole.listdir(streams=False, storages=True)]
+        for s in storages:          # a storage without any entry below it is reported as "path/"
+            if not any(k != s and k.startswith(s) for k in list(out) + storages):
+                out[s] = b""
         if ole.parsing_issues:
             raise ValueError("olefile parsing issues: %r" % (ole.parsing_issues,))
     return out
@@ -430,8 +431,9 @@ def main():
                     report("EXTRACTOR-DISAGREES", "%s on encrypted shell" % rd.__name__, "%s: %s" % (type(e).__name__, e))
     real = "/repo/sharepoint2text/tests/resources/legacy_ms/password_protected/docx-password-protected-pw123.docx"
     try:
-        with open(real, "rb") as f:
-            ref, prob = strict_read(f.read())
+        with olefile.OleFileIO(real) as ole:
+            ref = {"/".join(p): ole.openstream(p).read() for p in ole.listdir()}
+        prob = []
         mine, _ = strict_read(C.ooxml_encrypted_shell())
         same = [k for k in mine if k.startswith("\x06DataSpaces") and ref.get(k.replace("\x06Primary", "Primary"), ref.get(k)) == mine[k]]
         n = len([k for k in mine if k.startswith("\x06DataSpaces")])
